@@ -39,6 +39,12 @@ pub struct ContinuityStreamCache { pub filler: u8 }
 impl ContinuityStreamCache {
     #[verifier::external_body]
     pub fn append_best_effort(&self, e: &Event) { unimplemented!() }
+    // the same call with the guard it happens under: the sidecar gets its lines in seq order only if they are appended while the seq
+    // lock is still held (next-seq recovery after a restart reads the LAST sidecar line)
+    #[verifier::external_body]
+    pub fn append_best_effort_locked(&self, g: &SeqGuard, e: &Event)
+        requires g.held(),      // [sidecar.append.requires_the_seq_lock_is_still_held]
+    { unimplemented!() }
     // assumed (cache fidelity is C04/C05 territory): the sidecar tail is the stream's last frame
     #[verifier::external_body]
     pub fn try_read_last_seq(&self, id: &str) -> (r: io::Result<Option<u64>>)
